@@ -175,6 +175,24 @@ def run(ctx, tier):
                 for v in mine:
                     r_rm.violations.append(Violation('C18', 'C18.guards', v.fn, v.what, '%s: %s' % (name, v.msg), loc=v.loc, ordinal=v.ordinal))
 
+        # two milestones are linked only if "closer than the connection radius": strict, a pair at exactly the radius is not linked
+        # (C05 on the tree planners says "at most" and accepts either form, and so does the start connection of the query)
+        n_rg = 0
+        for b in p['methods']:
+            if b.impl_trait and b.name == 'solve':
+                continue                # the start connects to milestones "within the radius": either form
+            fnb = ctx.fn(b)
+            for o, g in enumerate(c05.radius_guards(ctx, p, fnb)):
+                n_rg += 1
+                r_rm.inst('%s: radius test at %s leaves out a distance equal to %s' % (b.path, b.loc(g['block']), g['R']), ok=g['strict'], site=b.loc(g['block']))
+                if not g['strict']:
+                    r_rm.violations.append(Violation(
+                        'C18', 'C18.guards', b.path, 'strict:' + g['R'],
+                        'the radius test accepts a distance equal to %s: two states at exactly the connection radius are linked, '
+                        'the property says closer than the radius' % g['R'], loc=b.loc(g['block']), ordinal=o))
+        if n_rg < 1:
+            r_rm.violations.append(Violation('C18', 'C18.guards', p['adt'], 'floor', 'only %d radius tests found in the roadmap planner (floor 1)' % n_rg))
+
         # ---------------------------------------------------------------- idempotent
         for b in p['methods']:
             if b.impl_trait or not any(pu['body'] is b for pu in pushes):
